@@ -12,10 +12,13 @@
    mode 3  rc2xy(row=a, col=b) and xy2rc(x=a, y=b)   [3; gen; n; a_0..; b_0..]
            -> xs ++ ys ++ [DX; DY] ++ (a_i - X0) ++ (b_i - Y0) ++ exact col (1 v | 0) ++ exact row
    mode 4  _map_channels_from_meta on a map string   [4; ascii codes ...]
-           -> [1; n; shank_0; a_0; b_0; flag_0; ...]  or [0] (ValueError) *)
+           -> [1; n; shank_0; a_0; b_0; flag_0; ...]  or [0] (ValueError)
+   mode 5  geometry_from_meta(read_meta_data(file), return_index=True, sort) on the file TEXT
+           [5; sort; code points of the file ...]
+           -> [0] exception | [2] (None, None) | [3] outside the model | 1 :: geometry ++ inds *)
 From Coq Require Import ZArith List Bool.
 From IBL.lib Require Import PyInt RunLib.
-From IBL.C08 Require Import Model Scan.
+From IBL.C08 Require Import Model Scan File.
 Import ListNotations.
 Open Scope Z_scope.
 
@@ -60,6 +63,13 @@ Definition run (inp : list Z) : list Z :=
       ++ map (fun x => x - X0 gg) a ++ map (fun y => y - Y0 gg) b
       ++ flat_map (fun x => enc_option (fun v => [v]) (xy2c gg x)) a
       ++ flat_map (fun y => enc_option (fun v => [v]) (xy2r gg y)) b
+  | 5 :: srt :: text =>
+      match geometry_of_file text (srt =? 1) with
+      | Raise => [0]
+      | NoGeometry => [2]
+      | Outside => [3]
+      | Geometry t inds => 1 :: enc_geom t ++ inds
+      end
   | 4 :: text =>
       match parse_map text with
       | Some sites => 1 :: Z.of_nat (length sites)
